@@ -39,7 +39,7 @@ def run(ck):
         if name == "BET":
             return np.array(sorted(rng.uniform(0.005, 0.9) / par["N"] for _ in range(n)))
         if name in REL_ONLY:
-            return np.array(sorted([logu(rng, 1e-6, 1e-3)] + [logu(rng, 1e-5, 0.99) for _ in range(n - 1)]))
+            return np.array(sorted([logu(rng, 1e-6, 1e-3), rng.uniform(0.5, 0.99), rng.uniform(0.1, 0.5)] + [logu(rng, 1e-5, 0.99) for _ in range(n - 3)]))
         k = max([v for kk, v in par.items() if kk.startswith("K")] or [1.0])
         if name == "JensenSeaton":
             k = par["K"] / par["a"]
@@ -123,7 +123,8 @@ def run(ck):
                     ck.fail_case({**sig, "clause": "fit raises a non-pyGAPS error", "error": type(e).__name__}, {**detail, "error": repr(e)[:300]})
             # ---------------------------------------------------------------- noisy data: error identity, bounds, user bounds / guesses
             noisy = ld * np.array([1 + rng.uniform(-0.03, 0.03) for _ in ld])
-            noisy = np.maximum.accumulate(noisy)
+            if rng.random() < 0.5:
+                noisy = np.maximum.accumulate(noisy)          # else: scatter may put the largest loading before the last point
             if not max(noisy) > min(noisy):
                 continue
             detail = {"params": par, "pressure": ps.tolist(), "loading": noisy.tolist()}
@@ -207,6 +208,10 @@ def run(ck):
             try:
                 m_iso = pg.ModelIsotherm(isotherm_data=df, pressure_key="pressure", loading_key="loading", branch=br, model="Langmuir", **common("Langmuir"))
                 got = {k: float(v) for k, v in m_iso.model.params.items()}
+                bp, bl = (ps_a, la) if br == "ads" else (ps_d, ldd)
+                reported_error_ok(m_iso, np.asarray(bp, dtype=float), np.asarray(bl, dtype=float), {"model": "Langmuir", "branch": br}, {"generator": want})
+                if float(m_iso.model.rmse) < 0:
+                    ck.fail_case({"clause": "reported error is negative", "branch": br}, {"reported": float(m_iso.model.rmse)})
                 if max(relerr(got["K"], want["K"]), relerr(got["n_m"], want["n_m"])) > 1e-4:
                     ck.fail_case({"clause": "fit used points of another branch", "branch": br, "branch_column": explicit}, {"generator": want, "fitted": got, "n_ads": na, "n_des": nd})
             except Exception as e:  # noqa
@@ -263,7 +268,7 @@ def run(ck):
             note("unit covariance:" + name, e)
             if e > 5e-3:
                 ck.fail_case({"clause": "fit of the same data in other units differs by more than the unit change", "model_kind": "nonlinear",
-                              "tiny_numbers": bool(float(np.max(conv.loading())) < 1e-2 or float(np.max(conv.pressure())) < 1e-2)},
+                              "badly_scaled": bool(not (1e-2 <= float(np.max(conv.loading())) <= 1e4) or not (1e-2 <= float(np.max(conv.pressure())) <= 1e4))},
                              {"params": par, "units": [p_iso.pressure_unit, p_iso.loading_unit, pu2, lu2], "deviation": e})
         except CalculationError:
             ck.count(("unit-refused", name, i), nontrivial=False, bucket="unit refit refused:" + name)
